@@ -61,7 +61,7 @@ pub fn run(case: &Sx, out: &mut Vec<Ev>) {
                         _ => panic!("harness: bad rintc affinity builder"),
                     };
                 }
-                t.add_rintc_affinity(r)
+                t.add_rintc_affinity(raw(r))
             }
             _ => panic!("harness: bad srat op"),
         }
